@@ -15,20 +15,93 @@ try:
     ROOT_TABS_STATUS = translate_c12_r3.generate(core.REPO, os.path.join(core.COQ, "gen"))
 except Exception as _ex:  # the generator itself broke: same fallback as an unparseable source
     ROOT_TABS_STATUS = "unparsed generator-failed: %s" % str(_ex)[:200]
+# coq/gen/LehmerFrag.v (round 4): the loop bodies of lehmer_guess / lehmer_guess_dword, the linear forms of lehmer_step and
+# lehmer_ext_step and COEFF_LIMIT, regenerated from integer/src/gcd/lehmer.rs; Int/GrlLehmerGenTie.v proves the models equal to it
+try:
+    import translate_c12_r4
+    LEHMER_FRAG_STATUS = translate_c12_r4.generate(core.REPO, os.path.join(core.COQ, "gen"))
+except Exception as _ex:
+    LEHMER_FRAG_STATUS = "unparsed generator-failed: %s" % str(_ex)[:200]
 
 
 def extra_phase(tier, seed, exes, oracle):
     word = ROOT_TABS_STATUS.split(" ", 1)[0]
-    return {
+    word4 = LEHMER_FRAG_STATUS.split(" ", 1)[0]
+    res = {
         "evaluations": 0,
-        "hist": {"translator_c12:RootTabs:" + word: 1},
+        "hist": {"translator_c12:RootTabs:" + word: 1, "translator_c12:LehmerFrag:" + word4: 1},
         "nontrivial": [],
         "samples": [{"fragment": "coq/gen/RootTabs.v (tools/translate_c12_r3.py from base/src/ring/root.rs, integer/src/gcd/lehmer.rs)",
                      "status": ROOT_TABS_STATUS,
                      "tied_by": "C12_root_tabs_are_source, C12_prim_sqrt_rem_u16_total, C12_prim_cbrt_rem_u16_total" if word == "ok"
+                                else "correspondence run only (source not parsed; previous copy marked STALE)"},
+                    {"fragment": "coq/gen/LehmerFrag.v (tools/translate_c12_r4.py from integer/src/gcd/lehmer.rs)",
+                     "status": LEHMER_FRAG_STATUS,
+                     "tied_by": "C12_lehmer_guess_loop_is_source, C12_sd_lin_is_source, C12_ud_lin_is_source, C12_lstep_top_is_source, C12_gen_coeff_limit_is_model" if word4 == "ok"
                                 else "correspondence run only (source not parsed; previous copy marked STALE)"}],
         "failures": [],
     }
+    # the word-level models at w = 32 against the force_bits="32" build: Karatsuba square root kernel, sqrt_rem_large,
+    # Lehmer guess / leading bits / step / cofactor step / one iteration, gcd and gcd_ext of multi-word operands.
+    # The harness marks its answers with `w32`, the oracle then evaluates the same extracted models with w = 32.
+    try:
+        exe, out = core.harness_build(HARNESS_BIN, "w32")
+    except Exception as ex:
+        exe, out = None, str(ex)
+    if exe is None:
+        res["failures"].append({"kind": "w32-harness-build-failed", "detail": out[-800:]})
+        return res
+    rng = core.Rng((seed or 0) ^ 0x32323232)
+    n = 700 if tier == "quick" else 20000
+    cases = list(enumerate(W32_CORPUS + w32_cases(rng, tier, n)))
+    timeout = CASE_TIMEOUT.get(tier, 30)
+    answers = core.run_sharded(exe, cases, case_timeout=timeout)
+    # panics carry no word-size mark (the shared line protocol writes them): this run knows its build
+    def marked(ans):
+        return ans if "w32" in ans.split() else ans + " w32"
+    verdicts = core.run_sharded(oracle, [(i, "%s => %s" % (t, marked(answers.get(i, "noanswer")))) for i, t in cases], case_timeout=max(timeout, 60))
+    res["evaluations"] = len(cases)
+    hist = res["hist"]
+    for i, t in cases:
+        v = verdicts.get(i, "noverdict")
+        toks = v.split()
+        verdict = toks[0] if toks else "noverdict"
+        kv = dict(x.split("=", 1) for x in toks[1:] if "=" in x)
+        op = t.split(" ", 1)[0]
+        hist["W32:op:" + op] = hist.get("W32:op:" + op, 0) + 1
+        if "asis" in kv:
+            hist["W32:asis:" + kv["asis"]] = hist.get("W32:asis:" + kv["asis"], 0) + 1
+        if kv.get("nt") == "1":
+            res["nontrivial"].append("w32 " + t)
+        tagged = "w32" in answers.get(i, "").split()
+        wordlevel = op in ("ksqrt", "lguess", "lguessd", "ltop", "ltopd", "liter", "lstep", "lext", "ugcd", "ugcd_ext", "usqrt_rem")
+        bad = None
+        if verdict not in ("pass", "skip"):
+            bad = "verdict " + v[:200]
+        elif kv.get("asis") == "diff":
+            bad = "model (w = 32) differs from the implementation"
+        elif wordlevel and answers.get(i, "").startswith("ok") and not tagged:
+            bad = "answer not marked w32: the harness was not built with 32-bit words"
+        if bad and len(res["failures"]) < 5:
+            res["failures"].append({"kind": "w32", "config": "w32", "case": t[:2000], "impl": answers.get(i, "noanswer")[:2000], "oracle": v[:300], "why": bad})
+    res["samples"].append({"w32_cases": len(cases), "asis_same": hist.get("W32:asis:same", 0), "asis_diff": hist.get("W32:asis:diff", 0)})
+    return res
+
+
+# corpus of the 32-bit run: q == B / odd split of the Karatsuba kernel, lehmer_step with a longer x, a failed guess
+W32_CORPUS = [
+    "ksqrt 2 ffffffffffffffffffffffffffffffff",
+    "ksqrt 3 ffffffffffffffffffffffff000000000000000000000000",
+    "ksqrt 5 40000000000000000000000000000000000000000000000000000000000000000000000000000001",
+    "lguess ffffffff 1",
+    "lguess 9de8d6d3 619237e5",
+    "liter 100000000000000000000 ffffffffffffffffffff",
+    "liter c0000000000000000000000001 7fffffffffffffff00000003",
+    "lstep 3 100000000ffffffff 2 ffffffffffffffff 1 1 0 1",
+    "lext 2 3 ffffffffffffffffffffffff 2 ffffffffffffffff 7fffffff 7fffffff 7fffffff 7fffffff",
+    "ugcd_ext rr 3b9aca0000000000000000000000000000000007 2540be400000000000000000000000000b",
+    "usqrt_rem ffffffffffffffffffffffffffffffffffffffff",
+]
 
 
 ID = "C12"
@@ -50,34 +123,43 @@ def canon_answer(ans):
         return "panic nan"  # log2_bounds(NaN): both builds panic, with different messages
     return ans
 
-LEVEL_TEXT = ("Machine-checked Coq theorems (86 pinned in coq/props/C12.v, all inputs unless a finite domain is stated): complete "
+LEVEL_TEXT = ("Machine-checked Coq theorems (122 pinned in coq/props/C12.v, all inputs unless a finite domain is stated): complete "
               "certificates (a checked gcd/Bezout, root, root-with-remainder, integer-logarithm or remove answer IS the gcd / truncated "
               "root / floor logarithm / full power); as-is models proved against them: the Karatsuba square root kernel of "
               "integer/src/root.rs (sqrt_rem / sqrt_rem_42: recursive split, division by s1 with the r1 carry trick, q == B overflow, odd "
               "quotient fix, correction s -= 1, all carry/borrow words) = (isqrt, remainder) for EVERY normalised input, every length "
-              "(induction on the length, fuel n) and every word size >= 2, and sqrt_rem_large around it = sqrt_rem for every integer of "
-              "three or more words; the Lehmer gcd / extended gcd at value level (lehmer_guess cosequence matrix unimodular with entries "
-              "<= COEFF_LIMIT and ended within w+1 iterations; every Lehmer / Euclid step of gcd_in_place and gcd_ext_in_place keeps the "
-              "gcd and the Bezout congruences; the loops end within x+y iterations; sign line and exact division of gcd_ext_large) => "
-              "gcd_large returns the gcd and gcd_ext_large (g, s, t) with g = gcd = s*x + t*y; the Newton n-th root iteration of "
-              "UBig/IBig::nth_root and cbrt; the three estimate-then-correct logarithm loops for ANY estimate, the shortcuts of ilog; "
-              "remove(); the primitive binary gcd and Euclidean gcd_ext for every type width; primitive roots of base/src/ring/root.rs: "
-              "correction loops exact from any underestimate (all n), every answer of the u8/u16/u32/u64 table+Newton routines, of the u128 "
-              "Karatsuba-step square root and of the wrappers is the exact root and remainder (all inputs), every u8/u16 input answered within 3 corrections (finite, by "
-              "computation), tables / guard constants / MIN_DWORD_GUESS_LEN regenerated from the source; the no_std log2 estimator proved "
-              "an enclosure for EVERY u8/u16 value (finite domain 0..65535) and, by the shift argument with exact f32 next_up/next_down "
-              "on bit patterns, for every wider unsigned value below 2^65000; the bracket decision procedure that judges log2_bounds "
-              "answers proved sound. Every implementation answer (std and no_std build) is decided per instance.")
+              "and every word size >= 2, and sqrt_rem_large around it; the Lehmer gcd / extended gcd: value-level loops (cosequence matrix "
+              "unimodular, every Lehmer / Euclid step keeps the gcd and the Bezout congruences, termination, sign line, exact division) "
+              "=> gcd_large returns the gcd and gcd_ext_large (g, s, t) with g = gcd = s*x + t*y; ROUND 4: the guessed step is NEVER "
+              "negative - proved from the tests lehmer_guess applies (b <= xbar, c <= ybar after every half step) for the aligned leading "
+              "bits of any x >= y, the new x is below y and the operand lengths differ by at most one word; highest_word_normalized / "
+              "highest_dword_normalized = (x >> k, y >> k) in all length cases; no Word / DoubleWord operation of lehmer_guess / "
+              "lehmer_guess_dword overflows (incl. the subtraction xbar - c of the second half); one iteration of the main loops always "
+              "succeeds and gcd_in_place's loop never panics; WORD-LEVEL models of lehmer_step (signed double-word forms, signed carries, "
+              "extra step for the top word of a longer x, both debug_asserts) and lehmer_ext_step proved equal to the value-level linear "
+              "updates for every word size >= 2, every length, all words, and the word-level iteration refines the value-level one; the loop "
+              "bodies of both guesses, the linear forms of both steps and COEFF_LIMIT are REGENERATED from lehmer.rs on every run and proved "
+              "equal to the models; the Newton n-th root iteration of UBig/IBig::nth_root and cbrt; the three estimate-then-correct "
+              "logarithm loops for ANY estimate, the shortcuts of ilog; remove(); the primitive binary gcd and Euclidean gcd_ext for every "
+              "type width; primitive roots of base/src/ring/root.rs: correction loops exact from any underestimate, every answer of the "
+              "u8..u64 table+Newton routines, of the u128 Karatsuba-step square root and (round 4) of the u128 cube root (division step "
+              "never below the root, i128 remainder exact, adjustment loop) is the exact root and remainder, u8/u16 total (finite), tables / "
+              "guards regenerated; the no_std log2 estimator an enclosure for EVERY u8/u16 value and every wider unsigned value below "
+              "2^65000; the std (libm) estimator of primitives, UBig/IBig (log2_bounds_large with both ADJUST products) and RBig an enclosure "
+              "for every input under the explicit contract 'f32::log2 is within one ulp' (satisfiable: correctly rounded log2), without the "
+              "interval tactic; FBig / RBig / IBig log2_bounds on IEEE binary32 operations (Flocq) cited from C14; the bracket decision "
+              "procedure that judges log2_bounds answers proved sound. Every implementation answer (std and no_std build) is decided per "
+              "instance; the word-level models also run at w = 32 against the force_bits=32 build.")
 LEVEL_NOTE = ("Partial where said: the Karatsuba kernel takes div_rem_in_place, sqr and DoubleWord::sqrt_rem through their contracts "
-              "(C02 / C01 / primitive roots) and models slices as values with lengths, not word lists; the Lehmer model is value level "
-              "(lehmer_step / lehmer_ext_step word loops and buffer lengths are not modelled; that the guessed step never goes negative is "
-              "a checked panic branch of the model, observed never to fire, not proved); for u32/u64 primitive roots only soundness of "
-              "an answer is proved for all inputs, that the Newton estimate never overshoots (no panic) and the u128 cube root are "
-              "compared per instance. The std log2 estimator depends on libm's f32::log2 (proofs under an explicit libm contract exist "
-              "in Int/GrlLog2StdProof.v but are not pinned: the interval tactic brings in the primitive-float axioms); the "
-              "big-integer/float/rational compositions and the floating-point estimate inside ilog are checked per instance "
-              "(bracket arithmetic, proved sound; the ilog loops are proved for every estimate).")
-TECHNIQUE = "Coq proof (certificate completeness + as-is algorithm models, induction on length / loop invariants) + extracted-checker correspondence run"
+              "(C02 / C01 / primitive roots) and models slices as values with lengths; in gcd_ext_in_place the buffer bookkeeping of the "
+              "cofactors (t0_len / t1_len, the carry of t0 += q*t1 in the Euclidean step) is modelled at value level with capacity checks "
+              "only - finding F09 (a cofactor word overwritten by that carry, wrong Bezout coefficients) was in exactly this part, found by "
+              "the correspondence run and repaired in /repo 1be8c4c; its pre-fix arithmetic is modelled and refuted; for u32/u64 primitive "
+              "roots only soundness of an answer is proved for all inputs, that the Newton estimate never overshoots (no panic) is compared "
+              "per instance (2^32 / 2^64 inputs, no analytic error bound attempted). The std log2 estimator depends on libm's f32::log2 "
+              "through the stated one-ulp contract (observed, not proved, for the libm in use); the floating-point estimate inside ilog is "
+              "checked per instance (the ilog loops are proved for every estimate).")
+TECHNIQUE = "Coq proof (certificate completeness + as-is algorithm models at value and word level, loop invariants, refinement, fragments regenerated from the source) + extracted-checker correspondence run on two word sizes"
 RULE = ("cases = operation x call form x operands from: word-count classes {0,1,2,3,4,5,8,T-1,T,T+1,300+-1} x bit patterns (all-ones, 2^k, "
         "2^k+-1, trailing zero words, top word 1/MAX, sparse) x signs; gcd pairs incl. zero/equal/multiple/shared factor/Fibonacci/huge "
         "quotient; radicands 0,1,r^n,r^n+-1 for n in {1,2,3,4,5,7,bits-1,bits,bits+1,bits/3+1,huge}; the Karatsuba kernel through its "
@@ -90,18 +172,26 @@ RULE = ("cases = operation x call form x operands from: word-count classes {0,1,
         "0..70; every case in the std and the no_std build of dashu-base, answers must agree except the f32 bounds. Non-trivial = a "
         "certificate / bracket decision was evaluated on a non-degenerate input. asis=same|diff: the implementation answer equals the "
         "extracted as-is model (Karatsuba kernel and sqrt_rem_large, Lehmer gcd / gcd_ext incl. cofactors, primitive sqrt/cbrt of "
-        "every width, nth_root, cbrt, remove, primitive gcd/gcd_ext, ilog shortcuts, no_std table and wide bounds).")
+        "every width, nth_root, cbrt, remove, primitive gcd/gcd_ext, ilog shortcuts, no_std table and wide bounds). Round 4: hook-level "
+        "ops lguess / lguessd (cosequence guess from one / two leading words: quotients around COEFF_LIMIT, golden-ratio chains, equal / "
+        "zero / unordered words), ltop / ltopd (aligned leading bits: length differences 0..3, every shift), liter (guess + lehmer_step "
+        "on trimmed slices, word and double-word guess, 299..301 words), lstep (raw slices incl. leading zero words, x one word longer, "
+        "coefficients from exact Euclidean prefixes, outside-contract inputs), lext (carries with all-ones words and COEFF_LIMIT "
+        "coefficients): for these a difference to the extracted model is a FAILURE; gcd pairs sparse-vs-all-ones (finding F09); extra "
+        "phase: 700 (quick) / 20000 cases of all word-level ops, gcd, gcd_ext, sqrt_rem against the force_bits=32 build with the models "
+        "at w = 32.")
 EXPLANATION = ("Theorems in coq/props/C12.v; the oracle evaluates the extracted certificates/specs on every implementation answer "
-               "(harness/src/bin/c12.rs calls every API of observe_at in all call forms and the sqrt_rem_kernel hook) and the extracted "
-               "as-is models for the fidelity statistic.")
+               "(harness/src/bin/c12.rs calls every API of observe_at in all call forms, the sqrt_rem_kernel hook and the Lehmer kernel "
+               "hooks) and the extracted as-is models (value level and word level, at the word size of the build) for the fidelity "
+               "statistic; for the hook-level Lehmer ops a model difference is a failure.")
 TRUSTED_BASE = [
     "Coq 8.16.1 kernel (coqc; vm_compute used only for the finite theorems - no_std log2 table and primitive roots, domain 0..65535 stated - and closed examples)",
     "extraction: ExtrOcamlBasic + ExtrOcamlZBigInt + coq/extract/FastZ.v directives (Z.gcd/Z.sqrt/Z.pow/Z.log2/shifts -> zarith)",
-    "OCaml 4.13.1 + zarith 1.12, oracle/common.ml, oracle/driver_c12.ml (decoding of answers, choice of bracket precision); Rust harness harness/src/bin/c12.rs; hook dashu_int::verif_hooks::sqrt_rem_kernel",
+    "OCaml 4.13.1 + zarith 1.12, oracle/common.ml, oracle/driver_c12.ml (decoding of answers, choice of bracket precision); Rust harness harness/src/bin/c12.rs; hooks dashu_int::verif_hooks::{sqrt_rem_kernel, lehmer_guess, lehmer_guess_dword, lehmer_top_word, lehmer_top_dword, lehmer_step, lehmer_ext_step} (cfg(dashu_verif), add-only wrappers of the private functions)",
     "contracts used by the Karatsuba model: div::div_rem_in_place (C02), sqr::sqr (C01), DoubleWord::sqrt_rem (primitive roots); value-level reading of word slices (C01/C02/C09 prove the word layer)",
-    "Lehmer gcd: word loops of lehmer_step / lehmer_ext_step and buffer bookkeeping are not modelled; the u128 cube root and the no-overshoot of the u32/u64 Newton estimates are compared per instance",
-    "std log2 estimator: libm f32::log2/f64::log2 behaviour is observed only",
-    "tools/translate.py (LOG2_TAB) and tools/translate_c12_r3.py (RSQRT_TAB, RCBRT_TAB, guard constants, MIN_DWORD_GUESS_LEN): regular-expression readers of the Rust sources",
+    "Lehmer gcd_ext: the cofactor buffers (t0_len / t1_len, carries of the multi-word updates) are modelled as values with capacity checks; the no-overshoot of the u32/u64 Newton estimates is compared per instance",
+    "std log2 estimator: the contract 'f32::log2 of a positive binary32 is within one ulp' is assumed of libm (theorems C12_std_log2_*), its behaviour is observed per instance; C14's lg_contract likewise",
+    "tools/translate.py (LOG2_TAB), tools/translate_c12_r3.py (RSQRT_TAB, RCBRT_TAB, guard constants, MIN_DWORD_GUESS_LEN) and tools/translate_c12_r4.py (loop bodies of lehmer_guess / lehmer_guess_dword, linear forms of lehmer_step / lehmer_ext_step, COEFF_LIMIT): small readers of the Rust sources; the harness constant MIN_DWORD_GUESS_LEN = 300 of the op liter",
 ]
 ASSUMPTIONS = [
     "UBig::from_words / as_words / IBig::from_parts / as_sign_words transport values faithfully",
@@ -181,6 +271,20 @@ def gcd_pair(rng, tier):
         return (a, max(0, a + rng.choice([-1, 1, -2, 2, -(1 << 64), 1 << 64])))
     if k == 10:  # powers of two and neighbours
         return ((1 << rng.range(0, 400)) + rng.choice([0, 0, 1, -1]), (1 << rng.range(0, 400)) + rng.choice([0, 0, 1, -1]))
+    if k == 11:  # sparse against all-ones operands: Lehmer steps ending with x <= y, then equal leading words (finding F09)
+        n = rng.choice([3, 4, 6, 8, 12, 12, 16, 24, 40])
+        bx = W * n - rng.below(W)
+        def sparse(bits):
+            v = 1 << (max(bits, 2) - 1)
+            for _ in range(rng.below(5)):
+                v |= 1 << rng.below(max(bits, 2))
+            return v
+        r = rng.below(3)
+        if r == 0:
+            return (sparse(bx), (1 << max(2, W * (n - rng.choice([0, 1, 2])) - rng.below(W))) - 1)
+        if r == 1:
+            return ((1 << bx) - 1, sparse(bx - rng.range(1, 130)))
+        return (sparse(bx), sparse(bx - rng.below(130)))
     return (mag(rng, tier), mag(rng, tier))
 
 
@@ -311,7 +415,7 @@ def isqrt(x):
     return math.isqrt(x)
 
 
-def ksqrt_root(rng, bits):
+def ksqrt_root(rng, bits, W=64):
     """a root of exactly [bits] bits, patterns that reach the carry / overflow paths of the kernel"""
     k = rng.below(7)
     if k == 0:
@@ -328,15 +432,15 @@ def ksqrt_root(rng, bits):
     return rng.bits(bits) | (1 << (bits - 1))
 
 
-def ksqrt_case(rng, tier):
-    """hook level: the Karatsuba square root kernel on a normalised radicand of 2n words"""
+def ksqrt_case(rng, tier, W=64):
+    """hook level: the Karatsuba square root kernel on a normalised radicand of 2n words (W bits each)"""
     n = rng.choice([2, 2, 3, 3, 4, 4, 5, 5, 6, 7, 8, 9, 10, 11, 12, 13, 15, 16, 17, 23, 24, 31, 32, 33, 47, 64, 65])
     if tier == "thorough" and rng.chance(1, 20):
         n = rng.choice([100, 129, 200, 257])
     top = 1 << (2 * W * n)
     k = rng.below(12)
     if k <= 3:  # root^2 + remainder, remainder at the boundaries (0, 1, 2s, carry word)
-        s = ksqrt_root(rng, W * n)
+        s = ksqrt_root(rng, W * n, W)
         r = rng.choice([0, 0, 1, 2 * s, 2 * s, 2 * s - 1, s, s + 1, rng.below(2 * s + 1), (1 << (W * n)) - 1, 1 << (W * n), (1 << (W * n)) + 1])
         a = s * s + min(r, 2 * s)
     elif k <= 6:  # the high part (at some level of the recursion) is t^2 - 1 - small: r1 = 2*s1, so q == B
@@ -346,7 +450,7 @@ def ksqrt_case(rng, tier):
             sp = lvl_n // 2
             path.append(sp)
             lvl_n -= sp
-        t = ksqrt_root(rng, W * lvl_n)
+        t = ksqrt_root(rng, W * lvl_n, W)
         a = t * t + 2 * t - rng.choice([0, 0, 0, 1, 2, rng.bits(16)])
         a = max(a, 1 << (2 * W * lvl_n - 2))
         for sp in reversed(path):
@@ -358,12 +462,198 @@ def ksqrt_case(rng, tier):
     elif k == 8:
         a = (top >> 2) + rng.choice([0, 1, 2, rng.bits(10), rng.bits(W), rng.bits(W * n)])
     elif k == 9:  # perfect square minus a little
-        s = ksqrt_root(rng, W * n)
+        s = ksqrt_root(rng, W * n, W)
         a = max(top >> 2, s * s - rng.choice([1, 1, 2, 3, rng.bits(W)]))
     else:
         a = rng.bits(2 * W * n) | (rng.choice([1, 2, 3]) << (2 * W * n - 2))
     a = min(max(a, top >> 2), top - 1)
     return "ksqrt %x %s" % (n, hx(a))
+
+
+
+# ---------------------------------------------------------------------------------------------- Lehmer kernels (hooks)
+def nwords(v, WB):
+    return (v.bit_length() + WB - 1) // WB
+
+
+def lehmer_pair(rng, WB, allow_dword=True):
+    """x >= y > 0, x of at least two words: the operand shapes the Lehmer loops see"""
+    k = rng.below(14)
+    n = rng.choice([2, 2, 3, 3, 4, 5, 8, 17])
+    if allow_dword and rng.chance(1, 25):
+        n = rng.choice([299, 300, 301])
+    top = rng.choice([1, 2, 3, (1 << (WB - 1)) - 1, 1 << (WB - 1), (1 << WB) - 1, rng.bits(WB) | 1, rng.bits(rng.range(1, WB)) | 1])
+    x = (top << (WB * (n - 1))) | rng.bits(WB * (n - 1))
+    if k == 0:      # same length, random
+        y = rng.bits(WB * n)
+    elif k == 1:    # one word shorter
+        y = rng.bits(WB * (n - 1))
+    elif k == 2:    # two or more words shorter (the guess fails)
+        y = rng.bits(WB * max(1, n - rng.choice([2, 2, 3])))
+    elif k == 3:    # close operands: quotients 1
+        y = x - rng.choice([0, 1, 2, rng.bits(WB), rng.bits(WB * (n - 1))])
+    elif k == 4:    # consecutive Fibonacci-like numbers
+        a, b = rng.range(1, 9), rng.range(1, 9)
+        while a.bit_length() <= WB * (n - 1) + rng.below(WB):
+            a, b = a + b, a
+        x, y = a, b
+    elif k == 5:    # first quotient around COEFF_LIMIT
+        q = rng.choice([(1 << (WB - 1)) - 2, (1 << (WB - 1)) - 1, 1 << (WB - 1), (1 << (WB - 1)) + 1, rng.bits(WB - 2) | 1])
+        y = max(1, x // q + rng.choice([0, 1, -1, rng.bits(WB)]))
+    elif k == 6:    # shared leading bits, different tails
+        sh = rng.range(1, WB * (n - 1))
+        y = ((x >> sh) << sh) - rng.choice([1, 1 << (sh // 2), rng.bits(sh) + 1])
+    elif k == 7:    # y a small multiple below x / small quotient chain
+        q = rng.range(2, 40)
+        y = x // q + rng.choice([0, 1, rng.bits(WB // 2)])
+    elif k == 8:    # y with leading bits of x shifted by less than a word (length difference 1, non-zero aligned word)
+        y = x >> rng.range(1, WB)
+    elif k == 9:    # all-ones patterns
+        x = (1 << (WB * n)) - 1 - rng.choice([0, 0, 1, rng.bits(WB)])
+        y = (1 << (WB * n - rng.choice([0, 1, 2, WB - 1, WB, WB + 1]))) - 1 - rng.choice([0, 1, rng.bits(WB)])
+    elif k == 10:   # powers of two and neighbours
+        x = (1 << (WB * n - rng.below(WB) - 1)) + rng.choice([0, 1, -1, rng.bits(WB)])
+        y = (1 << rng.range(WB * (n - 2) + 1, WB * n - 1)) + rng.choice([0, 1, -1])
+    else:
+        y = rng.bits(rng.range(WB * (n - 1) - 8, WB * n))
+    y = max(1, y)
+    if y > x:
+        x, y = y, x
+    if nwords(x, WB) < 2:
+        x |= 1 << WB
+    return x, y
+
+
+def cf_matrix(rng, x, y, WB, maxhalf):
+    """cosequence matrix after some exact Euclidean half-steps of (x, y) with entries <= COEFF_LIMIT:
+    a*x - b*y and d*y - c*x are consecutive remainders, hence non-negative, and the first is below y"""
+    L = (1 << (WB - 1)) - 1
+    a, b, c, d = 1, 0, 0, 1
+    xx, yy = x, y
+    for i in range(rng.range(1, maxhalf)):
+        if i % 2 == 0:
+            if yy == 0:
+                break
+            q = xx // yy
+            if a + q * c > L or b + q * d > L:
+                break
+            a, b, xx = a + q * c, b + q * d, xx - q * yy
+        else:
+            if xx == 0:
+                break
+            q = yy // xx
+            if d + q * b > L or c + q * a > L:
+                break
+            d, c, yy = d + q * b, c + q * a, yy - q * xx
+    return a, b, c, d
+
+
+def word_case(rng, tier, WB=64):
+    """one case of the word-level Lehmer ops (lguess, lguessd, ltop, ltopd, liter, lstep, lext)"""
+    L = (1 << (WB - 1)) - 1
+    k = rng.below(20)
+    if k < 3:       # guess from one leading word
+        x, y = lehmer_pair(rng, WB, False)
+        sh = x.bit_length() - WB
+        xb, yb = x >> sh, y >> sh
+        r = rng.below(10)
+        if r == 0:
+            xb, yb = rng.bits(WB), rng.bits(WB)
+            xb, yb = max(xb, yb), min(xb, yb)
+        elif r == 1:
+            xb, yb = rng.choice([((1 << WB) - 1, (1 << WB) - 1), ((1 << WB) - 1, 1), ((1 << WB) - 1, 2), (1 << (WB - 1), 0), (1 << (WB - 1), (1 << (WB - 1)) - 1),
+                                 ((1 << WB) - 1, (1 << (WB - 1)) + 1), (5, 9), (0, 0), (1, 1), ((1 << WB) - 1, 3), ((1 << WB) - 2, (1 << WB) - 1)])
+        elif r == 2:   # golden ratio: the longest cosequence
+            a, b = 1, 1
+            while (a + b).bit_length() <= WB:
+                a, b = a + b, a
+            xb, yb = a, b - rng.choice([0, 0, 1])
+        return "lguess %x %x" % (xb, yb)
+    if k < 5:       # guess from two leading words
+        x, y = lehmer_pair(rng, WB, False)
+        if nwords(x, WB) < 3:
+            x, y = x << WB, y << WB
+        sh = x.bit_length() - 2 * WB
+        xb, yb = x >> sh, y >> sh
+        r = rng.below(8)
+        if r == 0:
+            xb, yb = rng.bits(2 * WB), rng.bits(2 * WB)
+            xb, yb = max(xb, yb), min(xb, yb)
+        elif r == 1:
+            xb, yb = rng.choice([((1 << 2 * WB) - 1, (1 << 2 * WB) - 1), ((1 << 2 * WB) - 1, 1), ((1 << 2 * WB) - 1, (1 << WB) + 1), ((1 << 2 * WB) - 1, 1 << (WB + 1)),
+                                 (1 << (2 * WB - 1), (1 << WB) - 1), ((1 << 2 * WB) - 1, (1 << (2 * WB - 1)) + 1), (7, 9)])
+        elif r == 2:
+            a, b = 1, 1
+            while (a + b).bit_length() <= 2 * WB:
+                a, b = a + b, a
+            xb, yb = a, b - rng.choice([0, 0, 1])
+        return "lguessd %x %x" % (xb, yb)
+    if k < 7:
+        x, y = lehmer_pair(rng, WB, False)
+        if rng.chance(1, 2) and nwords(x, WB) >= 3:
+            return "ltopd %x %x" % (x, y)
+        return "ltop %x %x" % (x, y)
+    if k < 12:      # the Lehmer branch of one iteration
+        x, y = lehmer_pair(rng, WB)
+        return "liter %x %x" % (x, y)
+    if k < 16:      # lehmer_step on raw slices
+        x, y = lehmer_pair(rng, WB, False)
+        a, b, c, d = cf_matrix(rng, x, y, WB, 40)
+        xlen, ylen = nwords(x, WB), nwords(y, WB)
+        r = rng.below(12)
+        if r == 0:      # outside the contract: a coefficient above COEFF_LIMIT / wrong lengths / negative result
+            a, b, c, d = rng.choice([(L + 1, b, c, d), (a, b, c, 1 << (WB - 1)), (a, b + 1, c, d), (a, b, c + 1, d), (rng.bits(WB - 1), rng.bits(WB - 1), rng.bits(WB - 1), rng.bits(WB - 1))])
+        elif r == 1:
+            ylen = max(1, xlen - 2)
+            y &= (1 << (WB * ylen)) - 1
+        elif r == 2:
+            x, y, xlen, ylen = y, x, ylen, xlen
+        else:
+            # slices may carry leading zero words: x one word longer than y with a zero top word, both padded, ...
+            ylen = max(ylen, xlen - 1)
+            xlen = max(xlen, rng.choice([ylen, ylen, ylen + 1]))
+            if xlen > ylen + 1:
+                ylen = xlen - 1
+            if b == 0:
+                a, b, c, d = 1, max(1, min(L, x // max(1, y))), 0, 1
+                if x - b * y < 0 or (x - b * y).bit_length() > WB * ylen:
+                    b = 0
+        return "lstep %x %x %x %x %x %x %x %x" % (xlen, x, ylen, y, a, b, c, d)
+    # lehmer_ext_step
+    xlen, ylen = rng.choice([1, 2, 3, 4, 5, 9]), rng.choice([1, 2, 3, 4, 5, 9])
+    ln = rng.range(0, min(xlen, ylen))
+    pat = rng.below(4)
+    x = [(1 << (WB * xlen)) - 1, rng.bits(WB * xlen), rng.bits(WB * xlen) | ((1 << (WB * ln)) - 1), rng.bits(WB * max(1, xlen - 1))][pat]
+    y = [(1 << (WB * ylen)) - 1, rng.bits(WB * ylen), rng.bits(WB * ylen), (1 << (WB * ylen)) - 1][pat]
+    cf = lambda: rng.choice([0, 1, L, L, L - 1, rng.bits(WB - 1), rng.bits(WB // 2)])
+    a, b, c, d = cf(), cf(), cf(), cf()
+    r = rng.below(15)
+    if r == 0:
+        a = L + 1 + rng.below(3)
+    elif r == 1:
+        ln = min(xlen, ylen) + 1
+    return "lext %x %x %x %x %x %x %x %x %x" % (ln, xlen, x, ylen, y, a, b, c, d)
+
+
+def w32_cases(rng, tier, n):
+    """cases for the force_bits="32" build (extra phase): the word-level kernels with 32-bit words"""
+    out = []
+    while len(out) < n:
+        k = rng.below(10)
+        if k < 5:
+            out.append(word_case(rng, tier, 32))
+        elif k < 7:
+            out.append(ksqrt_case(rng, tier, 32))
+        elif k < 9:
+            x, y = lehmer_pair(rng, 32, False)
+            g = rng.choice([1, 1, 3, (1 << 31) | rng.bits(31) | 1, rng.bits(64) | 1])
+            a, b = rng.choice([(x, y), (y, x), (g * x, g * y)])
+            out.append("%s %s %x %x" % (rng.choice(["ugcd", "ugcd_ext", "ugcd_ext"]), rng.choice(FORMS), a, b))
+        else:
+            nw = rng.choice([3, 4, 5, 6, 7, 9, 16, 17])
+            lz = rng.choice([0, 1, 2, 3, 15, 16, 17, 30, 31])
+            out.append("usqrt_rem %x" % (rng.bits(32 * nw - lz) | (1 << (32 * nw - lz - 1))))
+    return out
 
 
 def sweep_cases(tier):
@@ -399,8 +689,10 @@ def gen_cases(rng, tier, n):
     out = sweep_cases(tier) if n >= 5000 else []
     n += len(out)
     while len(out) < n:
-        k = rng.below(100)
-        if k < 10:
+        k = rng.below(109)
+        if k >= 100:
+            out.append(word_case(rng, tier))
+        elif k < 10:
             a, b = gcd_pair(rng, tier)
             op = rng.choice(["gcd", "gcd", "ugcd", "gcd_ui", "gcd_iu"])
             sa = -1 if (op in ("gcd", "gcd_iu") and rng.chance(1, 2)) else 1
